@@ -440,6 +440,15 @@ impl Drop for DtlsTransport {
     }
 }
 
+/// Verification hook H5 (additive, compiled only with `--cfg rustrtc_verif`).
+#[cfg(rustrtc_verif)]
+impl DtlsTransport {
+    /// The role this transport actually runs the handshake in.
+    pub fn verif_is_client(&self) -> bool {
+        self.inner.is_client
+    }
+}
+
 impl DtlsInner {
     async fn handle_retransmit(&self, ctx: &HandshakeContext, _is_client: bool) {
         if *self.state.lock() != DtlsState::Handshaking {
